@@ -188,6 +188,20 @@ Theorem C04_mask_rows_travel : forall A g (rows : list A) b r,
 Proof. exact mask_rows_travel. Qed.
 Print Assumptions C04_mask_rows_travel.
 
+(* the statement of C04 in one piece *)
+Theorem C04_cx : forall A g (rows : list A) keys ps xs ys ex0 ey0 ex1 ey1,
+  g_modelled g -> g_even_outer g ->
+  length rows = g_len g ->
+  Permutation keys (seq 0 (g_len g)) ->
+  key_has_step xs = false -> key_has_step ys = false ->
+  g_total_bounds g = (Some ex0, Some ey0, Some ex1, Some ey1) ->
+  positive_box (spec_box xs ys (ex0, ey0, ex1, ey1)) ->
+  cx_rows (new_obj g) rows xs ys = Some (rows_spec g (spec_box xs ys (ex0, ey0, ex1, ey1)) rows) /\
+  cx_rows (build_sindex (new_obj g) keys ps) rows xs ys
+  = Some (rows_spec g (spec_box xs ys (ex0, ey0, ex1, ey1)) rows).
+Proof. exact cx_headline. Qed.
+Print Assumptions C04_cx.
+
 (* the index state: a second build_sindex keeps the first index; slicing /
    taking / copying yields an object without index *)
 Theorem C04_second_build_keeps_first : forall o keys ps keys' ps',
@@ -234,4 +248,35 @@ Example C04_zero_extent_index_relevant :
   let g := GLine (Build_listarr 0 1 None [[0; 4]] [Some 0; Some 0; Some 2; Some 0]%Z) in
   let k := (KSlice None None None, KSlice None None None) in
   cx_case (g, None, [k]) = [inr []] /\ cx_case (g, Some ([0], 512), [k]) = [inr [0]].
+Proof. vm_compute. split; reflexivity. Qed.
+
+(* the hypotheses of the theorems are satisfiable: the example above and a
+   two-polygon multipolygon (with a hole) are inside the modelled domain *)
+Example ex_lines_modelled : g_modelled ex_lines /\ g_even_outer ex_lines /\
+  g_total_bounds ex_lines = (Some 0, Some 0, Some 8, Some 8)%Z.
+Proof.
+  split; [|split; reflexivity]. split; [reflexivity|]. eexists. reflexivity.
+Qed.
+
+Definition ex_mpoly : garr :=
+  GMultiPolygon (Build_listarr 0 2 None [[0; 2; 2]; [0; 2; 3]; [0; 10; 20; 28]]
+    [Some 0; Some 0; Some 8; Some 0; Some 8; Some 8; Some 0; Some 8; Some 0; Some 0;
+     Some 2; Some 2; Some 2; Some 6; Some 6; Some 6; Some 6; Some 2; Some 2; Some 2;
+     Some 10; Some 10; Some 12; Some 10; Some 12; Some 12; Some 10; Some 10]%Z).
+
+Example ex_mpoly_modelled : g_modelled ex_mpoly /\ g_even_outer ex_mpoly.
+Proof.
+  split; [|reflexivity]. split; [split; [reflexivity | eexists; reflexivity]|].
+  do 3 eexists. split; reflexivity.
+Qed.
+
+(* box inside the hole (nothing), box inside the material, everything, box around the
+   second polygon only; with and without index *)
+Example ex_mpoly_cx :
+  let ks := [(KSlice (Some 3) (Some 5) None, KSlice (Some 3) (Some 5) None);
+             (KSlice (Some 0) (Some 1) None, KSlice (Some 0) (Some 1) None);
+             (KSlice None None None, KSlice None None None);
+             (KSlice (Some 9) None None, KSlice (Some 9) None None)]%Z in
+  cx_case (ex_mpoly, None, ks) = [inr []; inr [0]; inr [0]; inr [0]] /\
+  cx_case (ex_mpoly, Some ([0; 1], 1), ks) = [inr []; inr [0]; inr [0]; inr [0]].
 Proof. vm_compute. split; reflexivity. Qed.
